@@ -34,7 +34,7 @@ static inline std::string hex_i128(i128 v) {
 // m * 2^e with an integer m, so v * S * 2^K = (m * S) * 2^(e+K).
 struct Frame {
     int64_t S = 1;
-    int K = 0;
+    int K = 1;  // at least one extra bit: the drivers' guard `unit + 1` is then at most 1.5 grid units
     bool ok = true;
     i128 unit() const { return (i128)1 << K; }  // one grid unit (1/S) in frame integers
 };
